@@ -163,6 +163,13 @@ func validateInputTypeCompatibility(
 	inputs []Type,
 	handler reflect.Value,
 ) error {
+	// Variadic handlers are not supported: reflection reports the variadic parameter as a slice, which would
+	// match a list schema here, but Call passes that list as one argument, which reflect.Value.Call would
+	// then treat as a single element of the variadic parameter.
+	if handler.Type().IsVariadic() {
+		return fmt.Errorf("variadic handlers are not supported; declare a list parameter instead of '%s'",
+			handler.Type())
+	}
 	// Validate the input types match the provided ones.
 	specifiedParams := len(inputs)
 	actualParams := handler.Type().NumIn()
